@@ -298,6 +298,9 @@ class BaseInterpreter(Generic[TContext, TEvent]):
 
         # 🌳 State & Actor Management
         self._active_state_nodes: Set[StateNode] = set()
+        # States whose tasks `_exit_states` cancelled during the transition
+        # in flight; a rollback re-arms exactly these.
+        self._exit_cancelled_states: List[StateNode] = []
         #: Remembered configurations for history pseudo-states, keyed by the
         #: *parent* state id. Recorded on exit, replayed when a transition
         #: targets a `type: "history"` child of that parent.
@@ -1879,6 +1882,7 @@ class BaseInterpreter(Generic[TContext, TEvent]):
         #    itself healthy. Rolling back to the pre-transition configuration
         #    keeps the machine in a state that genuinely exists; the exception
         #    still propagates so the caller learns the transition failed.
+        self._exit_cancelled_states = []
         try:
             await self._exit_states(
                 sorted(
@@ -1932,9 +1936,12 @@ class BaseInterpreter(Generic[TContext, TEvent]):
             #    configuration restored without them looks right but is inert:
             #    a rolled-back state with `after: {250: "timeout"}` would never
             #    time out again. Re-scheduling makes the rollback a true
-            #    restore rather than a cosmetic one.
+            #    restore rather than a cosmetic one. Only states the exit
+            #    loop actually reached are re-armed: one it never got to
+            #    still owns its live timers and services, and scheduling
+            #    them again would leave it with two of each.
             for node in snapshot_before:
-                if node in states_to_exit:
+                if node in self._exit_cancelled_states:
                     self._schedule_state_tasks(node)
             raise
 
@@ -2200,6 +2207,7 @@ class BaseInterpreter(Generic[TContext, TEvent]):
             logger.debug("⬅️  Exiting state: '%s'.", state.id)
             # 🛑 Crucially, cancel tasks before running exit actions.
             await self._cancel_state_tasks(state)
+            self._exit_cancelled_states.append(state)
             # ⚙️ Then, run the synchronous exit actions.
             await self._execute_actions(state.exit, trigger_event)
             # 🗑️ Finally, remove from the active set.
